@@ -33,6 +33,10 @@ pub enum Site {
     /// file the link is a leaf; read as its target it is a directory that cannot be read
     #[serde(alias = "LinkUnreadable")]
     LinkUnreadable(String, String),
+    /// not a fault: a link (`zl`, `0l`, `.l` or `ml`) inside the first directory to the second,
+    /// readable directory (neither the first directory nor one of its ancestors) — read as its
+    /// target it is a second way into that directory and to the faults beneath it
+    LinkTo(String, String),
 }
 
 #[derive(Serialize, Deserialize, Clone, Debug)]
@@ -77,6 +81,11 @@ fn with_faults(tree: &TreeSpec, sites: &[&Site]) -> (TreeSpec, bool) {
                     target = target.rsplit_once('/').map(|x| x.0.to_string()).unwrap_or_default();
                 }
                 t.nodes.push(Node { path, kind: Kind::Link(target), unreadable: false });
+            },
+            Site::LinkTo(d, p) => {
+                let name = ["zl", "0l", ".l", "ml"][(d.bytes().map(|b| b as usize).sum::<usize>() + d.len()) % 4];
+                let path = if d.is_empty() { name.to_string() } else { format!("{}/{}", d, name) };
+                t.nodes.push(Node { path, kind: Kind::Link(p.clone()), unreadable: false });
             },
             Site::LinkUnreadable(d, p) => {
                 for n in t.nodes.iter_mut() {
@@ -161,7 +170,7 @@ impl Property for C20 {
         384
     }
     fn required_counters(&self) -> Vec<&'static str> {
-        vec!["placements", "prefixed_glob_walks", "walks", "fault_unreadable_reached", "fault_dangling_reached", "fault_reentrant_reached", "fault_at_base", "fault_last_child", "two_faults", "fault_beneath_discarded_tree", "fault_with_stack", "io_error_conversions", "error_depths_compared", "fault_link_to_unreadable_reached"]
+        vec!["placements", "prefixed_glob_walks", "walks", "fault_unreadable_reached", "fault_dangling_reached", "fault_reentrant_reached", "fault_at_base", "fault_last_child", "two_faults", "fault_beneath_discarded_tree", "fault_with_stack", "io_error_conversions", "error_depths_compared", "fault_link_to_unreadable_reached", "followed_plain_link_to_directory"]
     }
     fn decode(&self, t: &mut Tape) -> Case {
         let tree = gen_tree(t, &TreeCfg { max_entries: 14, ..TreeCfg::default() });
@@ -170,17 +179,26 @@ impl Property for C20 {
         let n = 2 + t.below(8);
         for _ in 0..n {
             let d = t.pick(&dirs);
-            let s = match t.weighted(&[40, 22, 26, 12]) {
+            let s = match t.weighted(&[36, 20, 24, 10, 10]) {
                 0 => Site::Unreadable(d),
                 1 => Site::Dangling(d),
                 2 => Site::Reentrant(d, t.below(3)),
-                _ => {
+                3 => {
                     let cands: Vec<String> = dirs.iter().filter(|p| !p.is_empty() && **p != d && !d.starts_with(&format!("{}/", p))).cloned().collect();
                     if cands.is_empty() {
                         Site::Unreadable(d)
                     }
                     else {
                         Site::LinkUnreadable(d, t.pick(&cands))
+                    }
+                },
+                _ => {
+                    let cands: Vec<String> = dirs.iter().filter(|p| !p.is_empty() && **p != d && !d.starts_with(&format!("{}/", p))).cloned().collect();
+                    if cands.is_empty() {
+                        Site::Dangling(d)
+                    }
+                    else {
+                        Site::LinkTo(d, t.pick(&cands))
                     }
                 },
             };
@@ -190,6 +208,7 @@ impl Property for C20 {
                     (Site::Dangling(a), Site::Dangling(b)) => a == b,
                     (Site::Reentrant(a, _), Site::Reentrant(b, _)) => a == b,
                     (Site::LinkUnreadable(a, _), Site::LinkUnreadable(b, _)) => a == b,
+                    (Site::LinkTo(a, _), Site::LinkTo(b, _)) => a == b,
                     _ => false,
                 });
                 if !clash {
@@ -238,7 +257,7 @@ impl Property for C20 {
             let p = &c.tree.nodes[i].path;
             let refd = c.sites.iter().any(|s| match s {
                 Site::Unreadable(d) | Site::Dangling(d) | Site::Reentrant(d, _) => d == p || d.starts_with(&format!("{}/", p)),
-                Site::LinkUnreadable(d, q) => d == p || d.starts_with(&format!("{}/", p)) || q == p || q.starts_with(&format!("{}/", p)),
+                Site::LinkUnreadable(d, q) | Site::LinkTo(d, q) => d == p || d.starts_with(&format!("{}/", p)) || q == p || q.starts_with(&format!("{}/", p)),
             });
             if refd {
                 continue;
@@ -296,7 +315,9 @@ impl Property for C20 {
                 st.count("fault_at_base");
             }
             let base = s.root.clone();
-            let followed_link_to_unreadable = case.follow && sites.iter().any(|s| matches!(s, Site::LinkUnreadable(..)));
+            // (also a plain link whose target another site makes unreadable)
+            let followed_link_to_unreadable = case.follow
+                && tree.nodes.iter().any(|n| matches!(&n.kind, Kind::Link(t) if tree.nodes.iter().any(|m| m.path == *t && m.unreadable)));
             if followed_link_to_unreadable && glob_rt.is_some() {
                 // judged on path walks only (the pruning of a glob is observed from a probed run,
                 // which would have to be taught the same deviation)
@@ -304,6 +325,9 @@ impl Property for C20 {
                 continue;
             }
             st.count("placements");
+            if case.follow && sites.iter().any(|s| matches!(s, Site::LinkTo(..))) {
+                st.count("followed_plain_link_to_directory");
+            }
             if sites.len() >= 2 {
                 st.count("two_faults");
             }
@@ -432,7 +456,7 @@ impl Property for C20 {
                             st.count("fault_optional");
                             continue;
                         }
-                        if own && case.follow && tree.nodes.iter().any(|n| matches!(n.kind, Kind::Link(_)) && n.path == *rel) {
+                        if own && case.follow && std::fs::symlink_metadata(base.join(rel)).map(|m| m.file_type().is_symlink()).unwrap_or(false) {
                             st.count("fault_link_to_unreadable_reached");
                         }
                         match *what {
@@ -518,7 +542,7 @@ impl Property for C20 {
                 if followed_link_to_unreadable && crate::findings::is_open("F-LINK-UNREADABLE", "C20") {
                     for it in &reference {
                         if let RefItem::Error { rel, what } = it {
-                            if *what == "unreadable directory" && tree.nodes.iter().any(|n| matches!(n.kind, Kind::Link(_)) && n.path == *rel) {
+                            if *what == "unreadable directory" && std::fs::symlink_metadata(base.join(rel)).map(|m| m.file_type().is_symlink()).unwrap_or(false) {
                                 let p = p_of(rel);
                                 q_ok.remove(&p);
                                 q_all.remove(&p);
